@@ -149,8 +149,11 @@ Definition positional : node :=
   NColl 7 0 [("gaussians", NColl 6 2 [("0", A2 3 (u01 1) (NFloat 2)); ("1", A2 4 (g12 2) (u01 1))]); ("extra", A2 5 (u01 8) (NFloat 1))].
 Definition cell : list (Z * node) := [(1%Z, NPrior 1 FUniform 0 0.5 0 0)].
 
-Example derive_fact_now : derive_copies_item_number = true.
-Proof. reflexivity. Qed.
+(* the facts read from the source, as they are now (C07_derived_*_partial depends on the first; the second is the
+   recorded finding derived-tuple-member-order: when it is repaired this example and C07_derived_same_identifier_refuted
+   change, and the guard tuples_ok can be dropped from the _partial theorems through derive_is_subst with ord = true) *)
+Example derive_facts_now : derive_copies_item_number = true /\ tuple_derive_keeps_order = false.
+Proof. split; reflexivity. Qed.
 
 Example derived_cell_is_hand_composed :
   derive cell positional =
@@ -159,14 +162,21 @@ Example derived_cell_is_hand_composed :
   tokens ps0 (reify (derive cell positional)) <> tokens ps0 (reify positional).
 Proof. split; [vm_compute; reflexivity | vm_compute; discriminate]. Qed.
 
-(* the guard of C07_derived_roundtrip is met by it *)
-Example derived_roundtrip_guard : reload_ok emcee = true /\ reload_ok (subst_all [cell; []] positional) = true.
-Proof. split; vm_compute; reflexivity. Qed.
+(* the guards of the C07_derived_* theorems are met *)
+Example derived_guards :
+  priors_only cell = true /\ forallb priors_only [cell; []] = true /\ tuples_ok positional = true /\
+  reload_ok emcee = true /\ reload_ok (subst cell positional) = true /\
+  tuples_ok (NModel 3 "" "c07_classes.P2" ["c"; "pos"] [("c", NFloat 1); ("pos", NTuple 2 [("pos_0", u01 1); ("pos_1", NFloat 2)])]) = true.
+Proof. repeat split; vm_compute; reflexivity. Qed.
+
+(* with both facts true a tuple with a fixed member first is derived in its own order *)
+Example derived_tuple_in_order : derive_gen true true [] mixed_tuple = mixed_tuple /\ derive_gen true false [] mixed_tuple <> mixed_tuple.
+Proof. split; [vm_compute; reflexivity|]. vm_compute. intro H. inversion H. Qed.
 
 (* what the theorems would lose without `collection.item_number = self.item_number`: the derived copy of a positional
    collection is described differently from the original (and from what its own files are read back to) *)
 Example derive_without_item_number_differs :
-  tokens ps0 (reify (derive_gen false [] positional)) <> tokens ps0 (reify positional) /\
-  (exists m', reload (derive_gen false [] positional) = Some m' /\
-              tokens ps0 (reify m') <> tokens ps0 (reify (derive_gen false [] positional))).
+  tokens ps0 (reify (derive_gen false true [] positional)) <> tokens ps0 (reify positional) /\
+  (exists m', reload (derive_gen false true [] positional) = Some m' /\
+              tokens ps0 (reify m') <> tokens ps0 (reify (derive_gen false true [] positional))).
 Proof. split; [vm_compute; discriminate|]. eexists. split; [vm_compute; reflexivity | vm_compute; discriminate]. Qed.
